@@ -255,7 +255,10 @@ def space(tier):
     units = []
     for p in programs():
         units.append(({"program": p, "cfg": {"env_kinds": ["crash"]}},
-                      {"crash": 1, "total": 1} if quick else {"crash": 2, "total": 2}, cap))
+                      {"crash": 1, "total": 1} if quick else {"crash": 3, "total": 3}, cap))
+        if not quick:
+            units.append(({"program": p, "cfg": {"env_kinds": ["crash", "page"], "page_modes": [0, 1, 3, 5]}},
+                          {"crash": 2, "page": 2, "total": 3}, cap))
         if "par[" in p["name"]:
             for pol in ("low", "high"):
                 units.append(({"program": p, "cfg": {"env_kinds": ["crash"], "policy": pol}}, {"crash": 1, "total": 1}, cap))
@@ -283,7 +286,7 @@ def run(ctx):
     cov["packaged_strategy_calls"] = n
     cov["bounds"] = ("(i) one step (top level, and inside a parallel branch) x 8 strategies (decision tables with delays 0/1/3, "
                      "error-class filter, preset none, two packaged configs) x 6 failure patterns (ok, fail 1/2/3 times, always, "
-                     "non-retryable class), five at-most-once variants (pairs of crash points) x every crash point (pairs in thorough and on three programs in quick); "
+                     "non-retryable class), five at-most-once variants (pairs of crash points) x every crash point (pairs on three programs in quick; thorough: triples, and pairs combined with every pagination mode of the replays); "
                      "(ii) create_retry_strategy over max_attempts 1..6 x initial {1,2,5,100} x max {1,10,300} x rate "
                      "{1,1.5,2,3} x jitter {NONE,HALF,FULL} x every attempt 1..max+1 x 4 (quick) / 8 (thorough) values of "
                      "random.random, error filters, the five presets")
